@@ -5,6 +5,7 @@
 #[macro_use]
 mod srcs;
 mod c01;
+mod c02;
 mod gen;
 mod util;
 
@@ -26,6 +27,7 @@ fn main() {
   let mut rng = util::Rng::new(seed ^ util_hash(prop));
   match prop {
     "C01" => c01::run(&mut sink, &mut rng, thorough),
+    "C02" => c02::run(&mut sink, &mut rng, thorough),
     _ => {
       eprintln!("unknown property {}", prop);
       std::process::exit(2);
